@@ -50,6 +50,10 @@ func (v *Verifier) strLit(c *Ctx, s string) Term {
 	t := c.declare(name, "Str")
 	v.strLits[s] = t
 	c.assert(eq(app("slen", t), num(int64(len(s)))), fmt.Sprintf("literal %q", s))
+	if s == "" {
+		// the empty string is the only string of length 0 (strings are compared by value)
+		c.assert(fmt.Sprintf("(forall ((s! Str)) (! (=> (= (slen s!) 0) (= s! %s)) :pattern ((slen s!))))", t), "empty string is unique")
+	}
 	if len(s) <= 48 {
 		for i := 0; i < len(s); i++ {
 			c.assert(eq(app("sbyte", t, num(int64(i))), num(int64(s[i]))), "")
